@@ -557,6 +557,46 @@ T('c15-twin-glob-exclude', 'C15', """            '--exclude',
             'packs.idx-shm',""", """            '--exclude',
             'packs.idx*',""", B)
 
+_C15_LIT = """        extra_args=[
+            '--exclude',
+            str(loose_path_rel),
+            '--exclude',
+            'packs.idx',
+            # also the SQLite side files (WAL mode) of the live index must not be copied:
+            # the index in the backup is the consistent dump transferred in step 3
+            '--exclude',
+            'packs.idx-wal',
+            '--exclude',
+            'packs.idx-shm',
+            '--exclude',
+            str(packs_path_rel),
+        ],
+    )"""
+_C15_STEP5 = "    # step 5: transfer anything else in the container folder\n    manager.call_rsync("
+
+
+def _c15_rw(prefix):
+    def rw(src):
+        assert src.count(_C15_STEP5) == 1 and src.count(_C15_LIT) == 1
+        return src.replace(_C15_STEP5, prefix + "    manager.call_rsync(").replace(_C15_LIT, "        extra_args=rest_args,\n    )")
+    return rw
+
+
+T('c15-twin-loop-built-excludes', 'C15', _c15_rw("""    excluded = [str(loose_path_rel), 'packs.idx', *(f'packs.idx{sfx}' for sfx in ('-wal', '-shm')), str(packs_path_rel)]
+    rest_args = []
+    for name in excluded:
+        rest_args += ['--exclude', name]
+"""), None, B)
+M('c15-loop-built-excludes-no-wal', 'C15', _c15_rw("""    excluded = [str(loose_path_rel), 'packs.idx', *(f'packs.idx{sfx}' for sfx in ('-shm',)), str(packs_path_rel)]
+    rest_args = []
+    for name in excluded:
+        rest_args += ['--exclude', name]
+"""), None, 'C15.R3', B)
+M('c15-conditional-exclude', 'C15', _c15_rw("""    rest_args = ['--exclude', str(loose_path_rel), '--exclude', 'packs.idx', '--exclude', 'packs.idx-shm', '--exclude', str(packs_path_rel)]
+    if prev_backup:
+        rest_args += ['--exclude', 'packs.idx-wal']
+"""), None, 'C15.R', B)
+
 # ------------------------------------------------------------------------------------------------ C18
 M('c18-d1-dupfd', 'C18', "if hasattr(fcntl, 'F_FULLFSYNC') and (", "if hasattr(fcntl, 'F_FULLFSYNC') is not None and (", 'C18.R3', U)
 M('c18-dirfd-not-closed', 'C18', "        _fsync_function(dirfd)\n        os.close(dirfd)", "        _fsync_function(dirfd)", 'C18.R1', U)
